@@ -1485,11 +1485,122 @@ pub fn run_precision(s: &mut Src, ctx: &mut Ctx) -> Verdict {
     Verdict::Pass
 }
 
+// ---------------------------------------------------------------------------------------------------------------
+// part `lookalike`: unequal values that a hand-made rendering (of an index key, a memo key) could write alike
+// ---------------------------------------------------------------------------------------------------------------
+
+/// Pairs (x, y), x != y: a string element that contains what a rendering would put BETWEEN elements; nesting that a
+/// flattening rendering loses; elements that run together without a separator; strings that differ in case, in a
+/// trailing blank, or in Unicode composition; element-wise type twins beyond the first element.
+fn lookalike_twins() -> Vec<(V, V)> {
+    let st = |t: &str| V::S(t.to_string());
+    let mut out: Vec<(V, V)> = Vec::new();
+    for sep in ["\",\"", "\", \"", "\"), String(\"", ",", ", ", ";", "|", " ", "\u{1f}", "\n"] {
+        out.push((V::A(vec![st("a"), st("b")]), V::A(vec![st(&format!("a{}b", sep))])));
+        out.push((V::A(vec![st(""), st("")]), V::A(vec![st(sep)])));
+        out.push((V::A(vec![st("a"), st("b"), st("c")]), V::A(vec![st("a"), st(&format!("b{}c", sep))])));
+    }
+    out.push((V::A(vec![V::A(vec![st("a")]), V::A(vec![st("b")])]), V::A(vec![V::A(vec![st("a"), st("b")])])));
+    out.push((V::A(vec![st("a"), V::A(vec![st("b")])]), V::A(vec![st("a"), st("b")])));
+    out.push((V::A(vec![V::A(vec![])]), V::A(vec![])));
+    out.push((V::A(vec![V::I(1), V::I(2)]), V::A(vec![V::I(12)])));
+    out.push((V::A(vec![st("1"), st("2")]), V::A(vec![st("12")])));
+    out.push((V::A(vec![V::I(1), V::I(2)]), V::A(vec![V::I(1), st("2")])));
+    out.push((V::A(vec![st("a"), V::N]), V::A(vec![st("a"), st("null")])));
+    out.push((V::A(vec![st("a"), V::B(true)]), V::A(vec![st("a"), st("true")])));
+    out.push((V::A(vec![st("a")]), st("[\"a\"]")));
+    out.push((V::A(vec![st("a")]), st("a")));
+    out.push((V::A(vec![]), st("")));
+    out.push((V::A(vec![]), V::N));
+    out.push((st("abc"), st("ABC")));
+    out.push((st("abc"), st("abc ")));
+    out.push((st("abc"), st(" abc")));
+    out.push((st("\u{e9}"), st("e\u{301}")));
+    out.push((st("a\"b"), st("a\\\"b")));
+    out.push((st("a\\"), st("a\\\\")));
+    out.push((st("a\nb"), st("a\\nb")));
+    out.push((st(""), V::N));
+    out
+}
+
+/// Exhaustive: every pair x every index schedule x both orders: indexed filtering, and memoised evaluation of a few
+/// nodes, on facts that differ only in such a pair.
+pub fn run_lookalike(s: &mut Src, ctx: &mut Ctx) -> Verdict {
+    let twins = lookalike_twins();
+    let k = s.below(twins.len());
+    let first_x = s.below(2) == 0;
+    let index_when = s.below(5);
+    if probe_only() {
+        return Verdict::Pass;
+    }
+    let (x, y) = twins[k].clone();
+    ctx.describe(|| format!("lookalike values {:?} / {:?}: first fact holds {:?}, index {}", x, y, if first_x { &x } else { &y }, ["never", "before the inserts", "between the inserts", "after the inserts", "created, dropped, created again"][index_when]));
+    let mk = |v: &V| {
+        let mut t = TypedFacts::new();
+        t.set("a", fv(v));
+        t
+    };
+    let (s0, s1) = if first_x { (mk(&x), mk(&y)) } else { (mk(&y), mk(&x)) };
+    let mut mem = AlphaMemoryIndex::new();
+    if index_when == 1 || index_when == 4 {
+        mem.create_index("a".to_string());
+    }
+    mem.insert(s0.clone());
+    if index_when == 2 {
+        mem.create_index("a".to_string());
+    }
+    if index_when == 4 {
+        mem.drop_index("a");
+    }
+    mem.insert(s1.clone());
+    if index_when == 3 || index_when == 4 {
+        mem.create_index("a".to_string());
+    }
+    for probe in [&x, &y] {
+        let p = fv(probe);
+        for tracked in [false, true] {
+            let got: Vec<Option<FactValue>> = if tracked { mem.filter_tracked("a", &p) } else { mem.filter("a", &p) }.iter().map(|t| t.get("a").cloned()).collect();
+            let want: Vec<Option<FactValue>> = mem.get_all().iter().filter(|t| t.get("a") == Some(&p)).map(|t| t.get("a").cloned()).collect();
+            if got != want {
+                return Verdict::fail(
+                    "alpha-indexed-mismatch:lookalike-values",
+                    format!("filter{}(a, {:?}) returned {:?}; the linear scan with == gives {:?}", if tracked { "_tracked" } else { "" }, probe, got, want),
+                );
+            }
+        }
+    }
+    // memo: the same node on both sets, twice
+    let needle = match &x {
+        V::A(a) => match a.first() {
+            Some(V::S(t)) => t.clone(),
+            _ => "a".to_string(),
+        },
+        V::S(t) => t.clone(),
+        _ => "a".to_string(),
+    };
+    for op in ["==", "!=", "contains", ">"] {
+        let node = ReteUlNode::UlAlpha(AlphaNode { field: "a".to_string(), operator: op.to_string(), value: needle.clone() });
+        let mut memo = MemoizedEvaluator::new();
+        for (i, set) in [&s0, &s1, &s0, &s1].iter().enumerate() {
+            let direct = node.evaluate_typed(set);
+            let got = memo.evaluate(&node, set, |n, f| n.evaluate_typed(f));
+            if got != direct {
+                return Verdict::fail(
+                    "memo-mismatch:lookalike-values",
+                    format!("evaluation {} of (a {} {:?}) on a = {:?}: memoised {} but evaluate_typed {}", i, op, needle, set.get("a"), got, direct),
+                );
+            }
+        }
+    }
+    ctx.nontrivial(hash_of(&(k, first_x, index_when)));
+    Verdict::Pass
+}
+
 pub fn property() -> Property {
     Property {
         id: "C16",
         level: "exploration",
-        rule: "generated: histories of 1..10 operations over one value pool (integers, floats incl. 0.0/-0.0/NaN/±inf, numeric-looking strings, booleans, null, arrays of these; probes are drawn from the stored values, their other-typed twins, or fresh). alpha: insert/create_index/drop_index/filter(+filter_tracked) on 3 fields — oracle: every filter returns exactly the fact indices of the linear scan with == (multiset); alpha-exh4/5 (thorough also 6): ALL histories of that length over 14 letters (insert of 5, \"5\", 5.0, 0.0, -0.0, NaN; create; drop; filter for the same 6 values; one field). beta: add/remove/lookup through 4 index slots — oracle: lookup(Debug rendering of v) contains every live fact whose join value == v and renders like v, nothing but live facts whose value == v or renders like v, no duplicates; beta-exh5 (thorough also 6): ALL histories of that length over 12 letters (toggle 2 idx x 4 facts keyed 5, \"5\", 5.0, none; 4 lookups). memo: 1..3 nodes (alpha, and/or/not/exists/forall, multifield) x 1..4 fact sets (fresh, type-twins or copies of earlier sets) on one MemoizedEvaluator — oracle: every evaluate equals evaluate_typed. conclusion: add_rule/remove_rule/find_candidates over 4 rule names, 1..3 actions (Set/Log/MethodCall/Retract), enabled or not, 11 goal spellings — oracle: candidates contain every rule whose latest added version is enabled, not removed, and has a Set on the goal's field. engine: the same demand on the candidate list visible in the proof trace of BackwardEngine::query after with_config / knowledge-base edits / rebuild_index, relative to the rule set the index was last built from. Non-trivial: alpha — a judged filter on an indexed field whose index was created after >=1 insert and followed by >=1 insert; beta — a judged lookup after a removal whose key was removed or is still live; memo — some (node, facts) pair evaluated twice and the same node evaluated on two different fact sets; conclusion — a find with a non-empty demanded set after removal of an indexed rule; engine — a query with a non-empty demanded set after a rebuild_index that followed a knowledge-base edit. Distinct: structural hash of the whole generated case (floats by bit pattern).",
+        rule: "generated: histories of 1..10 operations over one value pool (integers, floats incl. 0.0/-0.0/NaN/±inf, numeric-looking strings, booleans, null, arrays of these; probes are drawn from the stored values, their other-typed twins, or fresh). alpha: insert/create_index/drop_index/filter(+filter_tracked) on 3 fields — oracle: every filter returns exactly the fact indices of the linear scan with == (multiset); alpha-exh4/5 (thorough also 6): ALL histories of that length over 14 letters (insert of 5, \"5\", 5.0, 0.0, -0.0, NaN; create; drop; filter for the same 6 values; one field). beta: add/remove/lookup through 4 index slots — oracle: lookup(Debug rendering of v) contains every live fact whose join value == v and renders like v, nothing but live facts whose value == v or renders like v, no duplicates; beta-exh5 (thorough also 6): ALL histories of that length over 12 letters (toggle 2 idx x 4 facts keyed 5, \"5\", 5.0, none; 4 lookups). memo: 1..3 nodes (alpha, and/or/not/exists/forall, multifield) x 1..4 fact sets (fresh, type-twins or copies of earlier sets) on one MemoizedEvaluator — oracle: every evaluate equals evaluate_typed. conclusion: add_rule/remove_rule/find_candidates over 4 rule names, 1..3 actions (Set/Log/MethodCall/Retract), enabled or not, 11 goal spellings — oracle: candidates contain every rule whose latest added version is enabled, not removed, and has a Set on the goal's field. engine: the same demand on the candidate list visible in the proof trace of BackwardEngine::query after with_config / knowledge-base edits / rebuild_index, relative to the rule set the index was last built from. Non-trivial: alpha — a judged filter on an indexed field whose index was created after >=1 insert and followed by >=1 insert; beta — a judged lookup after a removal whose key was removed or is still live; memo — some (node, facts) pair evaluated twice and the same node evaluated on two different fact sets; conclusion — a find with a non-empty demanded set after removal of an indexed rule; engine — a query with a non-empty demanded set after a rebuild_index that followed a knowledge-base edit. Distinct: structural hash of the whole generated case (floats by bit pattern). Parts `precision` / `lookalike` (exhaustive): two facts that differ only in a pair of unequal values that a key rendering could write alike (integers equal as f64; a string element containing an element separator, nesting a flattening loses, elements running together, case / blank / Unicode-composition / escape variants) x 5 index schedules x both orders: filter and filter_tracked against the == scan, memoised against direct evaluation.",
         assumptions: vec![
             "BetaMemoryIndex::lookup takes a caller-rendered key string: a result is accepted when it lies between the == reading and the same-rendering reading of 'carrying that key' (they differ only for ±0.0 and NaN); const BETA_STRICT_EQ switches to == alone".into(),
             "Conclusion index: only completeness (superset) is demanded, as the statement reads; proposing disabled, removed or unrelated rules is not judged".into(),
@@ -1502,6 +1613,7 @@ pub fn property() -> Property {
             Part { name: "alpha-exh5", run: run_alpha, quick: Budget::Exhaustive { param: 5 }, thorough: Budget::Exhaustive { param: 5 }, min_nontrivial_pct: 0 },
             Part { name: "alpha-exh6", run: run_alpha, quick: Budget::Skip, thorough: Budget::Exhaustive { param: 6 }, min_nontrivial_pct: 0 },
             Part { name: "precision", run: run_precision, quick: Budget::Exhaustive { param: 1 }, thorough: Budget::Exhaustive { param: 1 }, min_nontrivial_pct: 0 },
+            Part { name: "lookalike", run: run_lookalike, quick: Budget::Exhaustive { param: 1 }, thorough: Budget::Exhaustive { param: 1 }, min_nontrivial_pct: 0 },
             Part { name: "beta", run: run_beta, quick: Budget::Random { cases: 2_000_000, bytes: 96 }, thorough: Budget::Random { cases: 30_000_000, bytes: 96 }, min_nontrivial_pct: 8 },
             Part { name: "beta-exh5", run: run_beta, quick: Budget::Exhaustive { param: 5 }, thorough: Budget::Exhaustive { param: 5 }, min_nontrivial_pct: 0 },
             Part { name: "beta-exh6", run: run_beta, quick: Budget::Skip, thorough: Budget::Exhaustive { param: 6 }, min_nontrivial_pct: 0 },
